@@ -173,7 +173,7 @@ class ModelBackend(object):
 
     def errfut(self, inst, tok):
         f = MFut("err")
-        f.set(None, SimError(tok))
+        f.set(None, (prog.SimStop if tok.startswith("stop") else SimError)(tok))
         return f
 
     def lazy(self, inst, mode, tok):
